@@ -320,7 +320,34 @@ ExtendFamily(z) ==
       api \in {"defvjp", "argnums"}, n \in {0, 1}, tbl \in 0..2, red \in {0, 1},
       t \in {tt \in (Shapes(2) \cup {<<2, 1, 3>>}) \X (Shapes(2) \cup {<<2, 1, 3>>}) : BroadcastOK(tt[1], tt[2])}}
 
+\* ---------------------------------------------------------------- smooth functions at special points (C01 / C02: "for every input")
+\* The generic families evaluate at generic points.  Rules written as quotients (ans / x, sin(pi x) / (pi x)^2) are exact there and NaN
+\* where the quotient degenerates although the FUNCTION is smooth.  st = kind of point:
+\*   "zero1"  one entry (the first) is exactly 0     "zeros" every entry is 0     "zero2" the first two entries are 0 (reductions)
+\*   "big"    entries +-400 (saturated tanh, logaddexp far from the crossover ...)
+\* ia = exponent / second operand selector for the binary ones, argnum = differentiated operand
+SpecialUnary == {"sin", "cos", "tan", "tanh", "sinh", "cosh", "arcsin", "arctan", "arcsinh", "expm1", "log1p", "exp", "exp2", "square", "sinc",
+                 "negative", "deg2rad"}
+SpecialBig == {"tanh", "arctan", "arcsinh", "logaddexp", "logaddexp2"}
+SpecialFamily(z) ==
+  {Cfg(p, "func", s, <<>>, <<>>, 0, NoAx, FALSE, 0, 0, <<>>, t, "rr", "array", NA) : p \in SpecialUnary, s \in {<<3>>, <<2, 2>>}, t \in {"zero1", "zeros"}}
+  \cup {Cfg(p, "func", s, <<>>, <<>>, 0, NoAx, FALSE, 0, 0, <<>>, "big", "rr", "array", NA) : p \in SpecialBig \ {"logaddexp", "logaddexp2"}, s \in {<<4>>}}
+  \cup {Cfg(p, "func", <<4>>, <<4>>, <<>>, n, NoAx, FALSE, 0, 0, <<>>, "big", "rr", "array", NA) : p \in {"logaddexp", "logaddexp2"}, n \in {0, 1}}
+  \* x ** e at x = 0 for e in {0, 1, 2, 3} as int and as float (ib = 1), e ** x at e = 0 is a kink and left out
+  \cup {Cfg("power", f, s, <<>>, <<>>, 0, NoAx, FALSE, e, fl, <<>>, t, "rr", "array", NA) : f \in {"func", "op"}, s \in {<<3>>}, e \in 0..3, fl \in {0, 1}, t \in {"zero1", "zeros"}}
+  \* binary, one operand with zero entries, the other generic
+  \cup {Cfg(p, "func", s, s, <<>>, n, NoAx, FALSE, w, 0, <<>>, "zero1", "rr", "array", NA) :
+          p \in {"multiply", "add", "subtract", "divide", "arctan2", "hypot", "maximum", "minimum", "logaddexp", "mod", "true_divide"},
+          s \in {<<3>>}, n \in {0, 1}, w \in {0, 1}}          \* w = which operand holds the zero (divide / mod: only the numerator)
+  \* reductions and contractions with zero entries
+  \cup {Cfg(p, "func", s, <<>>, <<>>, 0, ax, kd, 0, 0, <<>>, t, "rr", "array", NA) :
+          p \in {"prod", "sum", "mean", "var", "max", "min", "cumsum"}, s \in {<<3>>, <<2, 3>>}, ax \in {NoAx, AxInt(0), AxInt(-1)}, kd \in {FALSE},
+          t \in {"zero1", "zero2", "zeros"}}
+  \cup {Cfg(p, "func", a, b, <<>>, n, NoAx, FALSE, 0, 0, <<>>, t, "rr", "array", NA) :
+          p \in {"dot", "matmul", "inner", "outer", "kron", "tensordot"}, a \in {<<3>>, <<2, 3>>}, b \in {<<3>>, <<3, 2>>}, n \in {0, 1}, t \in {"zero1", "zeros"}}
+
 Space == CASE Family = "binary" -> BinaryFamily(0)
+           [] Family = "special" -> SpecialFamily(0)
            [] Family = "extend" -> ExtendFamily(0)
            [] Family = "where" -> WhereFamily(0)
            [] Family = "reduce" -> ReduceFamily(0)
